@@ -127,6 +127,7 @@ func checkWholeCompile(c *Check, r *Repo) {
 		w        wholeCase
 		o        modelOpts
 		bad, und string
+		skipped  bool
 	}
 	out := make([]res, len(cases)*len(allOpts))
 	parallelChunks(len(out), func(lo, hi int) {
@@ -164,6 +165,11 @@ func checkWholeCompile(c *Check, r *Repo) {
 				}
 				em := fm.m.runFull(rg)
 				if em.Err != "" {
+					if w.anyWarnings && strings.Contains(em.Err, "step limit exceeded") {
+						// a random grammar whose generation is too long to evaluate (a case label per code point): not examined
+						out[i].skipped = true
+						return
+					}
 					out[i].und = em.Err
 					return
 				}
@@ -191,8 +197,13 @@ func checkWholeCompile(c *Check, r *Repo) {
 	for _, g := range order {
 		var bad, und []string
 		seen := map[string]bool{}
+		nSkipped := 0
 		for _, o := range groups[g] {
 			n++
+			if o.skipped {
+				nSkipped++
+				continue
+			}
 			switch {
 			case o.bad != "":
 				k := o.w.name + ": " + o.bad
@@ -209,13 +220,16 @@ func checkWholeCompile(c *Check, r *Repo) {
 			}
 		}
 		construct := "Compile as a whole/" + g
+		if nSkipped*50 > len(groups[g]) {
+			und = append(und, fmt.Sprintf("%d of %d grammar×option sets could not be evaluated within the step limit", nSkipped, len(groups[g])))
+		}
 		switch {
 		case len(bad) > 0:
 			c.Bad("R-whole-compile", construct, "", clip(strings.Join(bad, " || "), 1500))
 		case len(und) > 0:
 			c.Und("R-whole-compile", construct, "", clip(strings.Join(und, " || "), 1200))
 		default:
-			c.OK("R-whole-compile", construct, "", fmt.Sprintf("%d grammar×option set(s) built through the builder API and taken through all of Compile parse and type-check", len(groups[g])))
+			c.OK("R-whole-compile", construct, "", fmt.Sprintf("%d grammar×option set(s) built through the builder API and taken through all of Compile parse and type-check (%d too long to evaluate)", len(groups[g])-nSkipped, nSkipped))
 		}
 	}
 	c.Floor("R-whole-compile", n, 100)
